@@ -400,8 +400,14 @@ def execute(scn):
     tags = common.op_tags(P)
     try:
         kept = changed_models(scn)
-        filtered = bool(pert.get('models')) and not (
-            set(pert.get('models') or []) & kept)
+        named = set(pert.get('models') or [])
+        if pert.get('marker'):
+            # the offending mutation itself names exactly one model
+            import json as _json2
+            mk_model = _json2.loads(pert['marker']).get('model')
+            if isinstance(mk_model, str):
+                named = {mk_model}
+        filtered = bool(named) and not (named & kept)
     except Exception:
         filtered = False
     from evosim import history as _history
